@@ -121,6 +121,37 @@ fn c06_q_xls_sst_header() {
     std::mem::forget((a, rec, enc));
 }
 
+/// FORMAT, LABEL and string records of every length up to the bound (decoder stubbed): Ok or Err, no panic.
+#[kani::proof]
+#[kani::unwind(10)]
+#[kani::stub(encoding_rs::Encoding::decode, crate::k_kcommon::model_utf16_decode)]
+fn c06_q_xls_format_record() {
+    let mut b: [u8; 8] = kani::any();
+    // declared character count concrete and small (a symbolic cch only sizes a String::with_capacity)
+    b[2] = 1;
+    b[3] = 0;
+    let s = any_slice(&b);
+    let mut rec = Record { typ: 0x041E, data: s, cont: None };
+    let enc = crate::cfb::k_kcfb::utf16_enc();
+    let a = parse_format(&mut rec, &enc);
+    kani::cover!(a.is_ok(), "end");
+    std::mem::forget((a, rec, enc));
+}
+
+#[kani::proof]
+#[kani::unwind(10)]
+#[kani::stub(encoding_rs::Encoding::decode, crate::k_kcommon::model_utf16_decode)]
+fn c06_q_xls_label_record() {
+    let mut b: [u8; 12] = kani::any();
+    b[6] = 1; // cch = 1
+    b[7] = 0;
+    let s = any_slice(&b);
+    let enc = crate::cfb::k_kcfb::utf16_enc();
+    let a = parse_label(s, &enc, Biff::Biff8);
+    kani::cover!(a.is_ok(), "end");
+    std::mem::forget((a, enc));
+}
+
 #[kani::proof]
 #[kani::unwind(4)]
 fn c06_q_twin_xls() {
